@@ -237,6 +237,21 @@ def cases(tier, seed):
                 c = mk(tree_plain(big, o), "plain", big, o, "metro", d)
                 c["timeout"] = 600
                 out.append(c)
+    # two devices of different kinds in one run: lengths around the per-kind prefix lengths (4 KiB / 16 KiB), the
+    # differing byte beyond the shorter prefix; the files of interest on either device
+    for L, o in ((4097, 4096), (10000, 7000), (16383, 16382), (16384, 5000), (20000, 16500), (70000, 69999)):
+        for disk, disk2 in (("ssd", "hdd"), ("hdd", "ssd"), ("ssd", "unknown"), ("unknown", "ssd")):
+            for where in ("r1", "r2"):
+                if quick and (L + len(disk) + len(where)) % 2 and L not in (10000, 4097):
+                    continue
+                other = "r2" if where == "r1" else "r1"
+                tree = [{"p": "%s/d1/A1" % where, "k": "file", "c": ["base", L, 0]}, {"p": "%s/d2/A2" % where, "k": "file", "c": ["base", L, 0]},
+                        {"p": "%s/d1/B1" % where, "k": "file", "c": ["flip", L, 0, o]},
+                        {"p": "%s/x1" % other, "k": "file", "c": ["base", 3000, 5]}, {"p": "%s/x2" % other, "k": "file", "c": ["base", 3000, 5]}]
+                c = mk(tree, "mixed", L, o, "metro", disk)
+                c["roots"] = ["r1", "r2"]
+                c["meta"].update(disk2=disk2, where=where)
+                out.append(c)
     return out
 
 
@@ -434,8 +449,44 @@ def evaluate_twofs(case):
             "sample": {"kind": "twofs", "args": case["args"], "meta": meta}}
 
 
+def evaluate_mixed(case):
+    """One run over two devices of different kinds (per-device prefix lengths, pools): the files of interest - equal
+    up to offset o, differing there - lie on the first device, a pair of candidates on the second one. Both layouts:
+    files of interest on the device that is scanned together with a faster / a slower one."""
+    import os
+    meta = case["meta"]
+    if not C.can_loop_mount():
+        return {"violations": [], "nontrivial": None, "outcome": "skipped_no_loop_mount"}
+    viol = []
+    nontrivial = None
+    with C.Scratch() as sc:
+        os.makedirs(os.path.join(sc.tree, "r2"))
+        with C.LoopMount(os.path.join(sc.tree, "r2")):
+            C.make_tree(sc.tree, case["tree"])
+            env = dict(case["env"], FCLONES_VERIF_DISK_KIND_AT="%s=%s" % (meta["disk2"], os.path.join(sc.tree, "r2")))
+            rc, out, err, to = C.fclones(["group"] + case["args"] + case["roots"] + ["-f", "json"], sc, env_extra=env)
+            if rc != 0 or to:
+                viol.append({"kind": "crash", "transform": "none", "detail": "rc=%s %s" % (rc, err[-300:])})
+            else:
+                for g in C.parse_json_report(out).groups:
+                    datas = [(C.u(p), C.read_file(p)) for p in g["paths"]]
+                    if len(datas) >= 2:
+                        nontrivial = ["mixed", meta["L"], meta["o"], meta["disk"], meta["disk2"], meta["where"]]
+                    bad = [p for p, d in datas if d != datas[0][1]]
+                    if bad:
+                        viol.append({"kind": "non_identical_group", "transform": "none", "differs_only_beyond_input_len": False,
+                                     "first_stage_that_could_see_the_difference": "mixed_device_kinds",
+                                     "detail": "devices %s (tree) + %s (r2), files of interest on %s: group of files with different bytes: "
+                                               "%s vs %s (length %d, first difference at %s); args %s" % (
+                                                   meta["disk"], meta["disk2"], meta["where"], datas[0][0], bad[0], meta["L"], meta["o"], case["args"])})
+    return {"violations": viol, "nontrivial": nontrivial, "outcome": "mixed", "counters": {"mixed_device_runs": 1},
+            "sample": {"kind": "mixed", "meta": meta}}
+
+
 def evaluate(case):
     meta = case["meta"]
+    if meta["kind"] == "mixed":
+        return evaluate_mixed(case)
     if meta["kind"] == "twofs":
         return evaluate_twofs(case)
     if meta["kind"] == "cacherace":
